@@ -345,7 +345,7 @@ func runC08(c *Ctx) {
 				n++
 				root, _ := addrRoot(st.Addr)
 				isClone := isCallNamed(root, "google.golang.org/protobuf/proto.Clone")
-				okVal := f == msr && len(msr.Params) == 3 && st.Val == ssa.Value(msr.Params[2])
+				okVal := f == msr && len(msr.Params) == 3 && st.Val == ssa.Value(param(msr, 2))
 				c.Check(isClone && fieldOf(fa) == fDup && okVal, "C08.dup-clone", fnName(f), "store "+Expr(st.Addr), P.Pos(in.Pos()), fmt.Sprintf("base object is a proto.Clone=%v (root %s), field=%s, value is the dup parameter=%v", isClone, Expr(root), fieldName(fa.X.Type(), fa.Field), okVal))
 			})
 		}
